@@ -54,7 +54,8 @@ def same(a, b, what, tol=1e-7):
     if a is None or b is None:
         return None if (a is None and b is None) else {"got": a, "expected": b, "witness_class": what + ":None-mismatch"}
     a, b = np.asarray(a, float), np.asarray(b, float)
-    if a.shape != b.shape or not np.allclose(a, b, rtol=tol, atol=tol * max(1.0, float(np.max(np.abs(b))) if b.size else 1.0), equal_nan=True):
+    scale = float(np.nanmax(np.abs(b))) if b.size and np.any(np.isfinite(b)) else 0.0          # relative to the magnitude of the expected values: small numbers are numbers too
+    if a.shape != b.shape or not np.allclose(a, b, rtol=tol, atol=tol * scale if scale > 0 else 1e-12, equal_nan=True):
         return {"got": a, "expected": b, "witness_class": what}
 
 
@@ -95,6 +96,7 @@ def roundtrip(obj, cls, d, tag, view=None):
 
 # ------------------------------------------------------------------ containers
 MIXES = {
+    "tiny-vector": [("s", dict(err_val=ABS * 1e-10))], "nearly-constant-vector": [("s", dict(err_val=0.3 + 1e-7 * np.arange(len(ABS))))],          # distinct entries must come back distinct, whatever their magnitude
     "none": [], "simple": [("s", dict(err_val=0.3))], "vector": [("s", dict(err_val=ABS))], "relative": [("s", dict(err_val=REL, relative=True))], "correlated": [("s", dict(err_val=0.2, correlation=0.6))],
     "matrix-cov": [("m", dict(err_matrix=CORM * np.outer(ABS, ABS), matrix_type="cov"))], "matrix-cor": [("m", dict(err_matrix=CORM, matrix_type="cor", err_val=ABS))],
     "matrix-rel": [("m", dict(err_matrix=CORM * np.outer(REL, REL), matrix_type="cov", relative=True))], "matrix-cor-rel": [("m", dict(err_matrix=CORM, matrix_type="cor", err_val=REL, relative=True))],
@@ -366,6 +368,17 @@ def fit(inp):
             return r
         if asym is not None:
             r = same(back.asymmetric_parameter_errors, asym, tag + ":asymmetric-errors", 1e-6)
+            if r:
+                return r
+            # ... also in the result dictionary (what report / to_file / save_state of the reloaded fit use), and after a second save / load cycle
+            rd_ = back.get_result_dict().get("asymmetric_parameter_errors")
+            r = same(list(rd_.values()) if isinstance(rd_, dict) else rd_, asym, tag + ":asymmetric-errors-in-result-dict", 1e-6)
+            if r:
+                return r
+            back2, fail2 = roundtrip(back, type(back), d, tag + ":second-cycle", lambda q: fit_view(q, kind))
+            if fail2:
+                return fail2
+            r = same(back2.asymmetric_parameter_errors, asym, tag + ":asymmetric-errors-after-second-cycle", 1e-6)
             if r:
                 return r
         # same cost surface
